@@ -366,6 +366,51 @@ class Program:
         if self.end["functions"] != len(self.fns):
             raise RuntimeError("facts file %s: function count mismatch" % path)
 
+    def absorbed_fns(self):
+        """helpers and closures whose body was inlined at every place that calls them (inline.py) and that nothing else refers to: their
+        stand-alone copy is dead for call-site rules - the inlined copies are analysed with their callers' facts"""
+        if getattr(self, "_absorbed", None) is not None:
+            return self._absorbed
+        inl = getattr(self, "inlined", {}) or {}
+        was_inlined = set()
+        for caller, items in inl.items():
+            for x in items:
+                if x in self.fns:
+                    was_inlined.add(x)
+        still = set()
+        for q, g in self.fns.items():
+            for blk in g.rec["blocks"]:
+                t = blk["term"]
+                if t["k"] == "call":
+                    c = t.get("resolved") or t.get("callee")
+                    if c in was_inlined:
+                        still.add(c)
+                    for a in t.get("args", []):
+                        ty = None
+                        if a.get("k") in ("move", "copy") and not a["place"]["proj"]:
+                            ty = g.rec["locals"][a["place"]["local"]]
+                        while ty and ty.get("k") == "ref":
+                            ty = ty.get("to")
+                        if ty and ty.get("k") == "closure" and ty.get("path") in was_inlined:
+                            still.add(ty["path"])
+                    fo = t.get("fnop") or {}
+                    for a in t.get("args", []):
+                        if a.get("k") == "const" and (a.get("ty") or {}).get("k") == "fndef" and a["ty"].get("path") in was_inlined:
+                            still.add(a["ty"]["path"])
+        # a function that only an absorbed function still calls is absorbed too (iterate)
+        out = was_inlined - still
+        changed = True
+        while changed:
+            changed = False
+            for c in list(still):
+                callers = [q for q, g in self.fns.items() if any(blk["term"]["k"] == "call" and (blk["term"].get("resolved") or blk["term"].get("callee")) == c for blk in g.rec["blocks"])]
+                if callers and all(q in out for q in callers):
+                    still.discard(c)
+                    out.add(c)
+                    changed = True
+        self._absorbed = out
+        return out
+
     def derived_clone_fns(self, adt_path):
         """paths of `clone` functions of a #[derive(Clone)] impl for the given type: a derived clone copies a value field by field, so it
         preserves every invariant the constructor establishes (rules of the form "values are built only by X" accept it)"""
